@@ -1,6 +1,7 @@
 """C11 - folding puts every sample in exactly one bin fixed by the phase model."""
 from __future__ import annotations
 
+import os
 import zlib
 from fractions import Fraction
 
@@ -143,9 +144,10 @@ def execute_long_fil(sc, ctx) -> None:
     pbin = fl.astype(np.int64) % nbins
     other = np.where(frac < 0.5, pbin - 1, pbin + 1) % nbins
     del phase, fl, frac
-    tt = np.arange(n, dtype=np.int64)[:, None]
-    cc = np.arange(nch, dtype=np.int64)[None, :]
-    data = ((filgen._mix(int(sc["vseed"]), tt * np.ones((1, nch), dtype=np.int64), cc * np.ones((n, 1), dtype=np.int64)) % np.uint64(int(sc["density"]))) == 0).astype(np.uint8)
+    tt = np.arange(n, dtype=np.int64)
+    data = np.empty((n, nch), dtype=np.uint8)
+    for c in range(nch):  # one column at a time: the whole (n, nchans) hash in 64-bit integers would be gigabytes
+        data[:, c] = (filgen._mix(int(sc["vseed"]), tt, np.full(n, c, dtype=np.int64)) % np.uint64(int(sc["density"]))) == 0
     data[amb, :] = 0
     rows = data.sum(axis=1, dtype=np.int64)
     sums = np.bincount(pbin[~amb], weights=rows[~amb].astype(np.float64), minlength=nbins)
@@ -158,7 +160,7 @@ def execute_long_fil(sc, ctx) -> None:
     with open(path, "wb") as fp:
         fp.write(filgen.encode_header(filgen.header_fields(spec, 0, 58000.0)))
         data.tofile(fp)
-    del data, rows, tt, cc
+    del data, rows, tt
     with SimDisk(ctx, []) as sim:
         sim.begin_op(0, budget=1000000)
         reader = open_reader("C11", [path], allow_chdir=False)
